@@ -76,7 +76,7 @@ class Batch(object):
         t_end = time.monotonic() + self.budget_s
         running = []
         pending = list(tasks)
-        hard = self.budget_s + 300
+        hard = self.budget_s + 1000
 
         tmpdir = os.path.join(OUT, 'tmp', '%s-%d-%d' % (self.prop, os.getpid(), int(time.time() * 1000) % 100000000))
         os.makedirs(tmpdir, exist_ok=True)
